@@ -771,7 +771,7 @@ pub fn run_long(ctx: &Ctx) {
     let mut out = Out::create(&ctx.out_dir, "siglong");
     let _suite_name = "siglong";
     let kinds = [
-        "silence", "noise", "tone_mark", "programme", "repeated_preambles", "valid_char_carrier", "further_header", "trailer_late", "fsk_garbage_carrier", "preamble_forever", "lone_bursts", "valid_char_bursts", "preamble_phase_slips",
+        "silence", "noise", "tone_mark", "programme", "repeated_preambles", "valid_char_carrier", "further_header", "trailer_late", "fsk_garbage_carrier", "preamble_forever", "lone_bursts", "valid_char_bursts", "preamble_phase_slips", "extra_burst_in_hold",
         // no message is ever opened: decode errors / lone bursts, then > 135 s of other audio (C04: no EndOfMessage may appear)
         "noheader_err_silence", "noheader_err_noise", "noheader_lone_trailer",
         // a complete transmission that begins only after the receiver has run for more than 135 s
@@ -871,6 +871,26 @@ pub fn run_long(ctx: &Ctx) {
                 let nbytes = (follow * BAUD / 8.0) as usize;
                 a.burst(nbytes, &[], &mut rng);
             }
+            "extra_burst_in_hold" => {
+                // (the standard preamble above ends with 1.5 s of silence; here the header group is followed, inside
+                // the hold of its last burst, by one more burst that does not improve the header — a cut-short fourth
+                // repetition or garbage — so that the StartOfMessage is released by the call that assembles THAT burst,
+                // not by an idle poll; then nothing for > 135 s)
+                let extra: Vec<u8> = if rng.chance(1, 2) {
+                    h[..(rng.range(16, 30) as usize).min(h.len())].to_vec()
+                } else {
+                    let mut p = b"ZCZC-".to_vec();
+                    p.extend((0..rng.range(12, 40)).map(|_| *rng.pick(CALL_CHARS)));
+                    p
+                };
+                // rewind the 1.5 s of silence to about one second after the third burst
+                let cut = (0.55 * rate as f64) as usize;
+                let keep = a.samples.len().saturating_sub(cut);
+                a.samples.truncate(keep);
+                a.raw(&[]);
+                a.burst(16, &extra, &mut rng);
+                a.silence(follow, &mut rng);
+            }
             "preamble_phase_slips" => {
                 // a continuous carrier of preamble bytes whose bit phase slips every few bytes: every slip makes the
                 // correlator re-synchronise at a new byte boundary, which restarts the framer's prefix search
@@ -939,7 +959,7 @@ pub fn run_long(ctx: &Ctx) {
         let (op, imp) = rx_op(rate, &taps, &evs);
         out.op(&op, &imp, true);
         let evline = show_events(&evs);
-        out.spec(&format!("spec.sig c09 {} [{}] => {}", rate, label, evline));
+        out.spec(&format!("spec.sig c09 {};{} [{}] => {}", rate, a.samples.len(), label, evline));
         out.spec(&format!("spec.sig c04 {} [{}] => {}", rate, label, evline));
         out.spec(&format!("spec.sig c13life - [{}] => {}", label, evline));
         out.count(&format!("kind:{}", kind));
@@ -1376,14 +1396,17 @@ pub fn run_seq(ctx: &Ctx) {
         if b_hdr == a_hdr {
             b_hdr[6] ^= 1;
         }
-        let ntx = 1 + i % 3;
+        // directed: every 12th case is the same header twice with no trailer in between, the repeat beginning after
+        // the suppression window (it must be reported again, while the first message is still open)
+        let directed_repeat = i % 12 == 11;
+        let ntx = if directed_repeat { 2 } else { 1 + i % 3 };
         let mut a = Audio::new(lg.line.clone());
         a.silence(0.4, &mut rng);
         let mut txs: Vec<String> = vec![];
         let mut spans: Vec<String> = vec![];
         let mut label = format!("sigseq.case={}.rate{}", i, rate);
         for t in 0..ntx {
-            let kind = if t == 0 { rng.below(2) } else { rng.below(3) }; // 0 = A, 1 = B, 2 = trailer
+            let kind = if directed_repeat { 0 } else if t == 0 { rng.below(2) } else { rng.below(3) }; // 0 = A, 1 = B, 2 = trailer
             let payload: Vec<u8> = match kind {
                 0 => a_hdr.clone(),
                 1 => b_hdr.clone(),
@@ -1405,7 +1428,7 @@ pub fn run_seq(ctx: &Ctx) {
                 }
             }
             if t + 1 < ntx {
-                let gap = *rng.pick(&[1.0f64, 1.0, 1.3, 2.0, 5.0, 11.5]);
+                let gap = if directed_repeat { 11.5 + rng.unit() * 2.0 } else { *rng.pick(&[1.0f64, 1.0, 1.3, 2.0, 5.0, 11.5]) };
                 label.push_str(&format!(".gap{:.1}", gap));
                 a.silence(gap, &mut rng);
             }
@@ -1420,7 +1443,7 @@ pub fn run_seq(ctx: &Ctx) {
         out.op(&op, &imp, true);
         let evline = show_events(&evs);
         out.spec(&format!("spec.sig c08seq {};{};{} [{}] => {}", rate, txs.join(","), spans.join(","), label, evline));
-        out.spec(&format!("spec.sig c05seq {};{} [{}] => {}", rate, txs.join(","), label, evline));
+        out.spec(&format!("spec.sig c05seq {};{};{} [{}] => {}", rate, a.samples.len(), txs.join(","), label, evline));
         out.spec(&format!("spec.sig c04 {} [{}] => {}", rate, label, evline));
         out.spec(&format!("spec.sig c13life - [{}] => {}", label, evline));
         out.count(&format!("ntx:{}", ntx));
